@@ -96,3 +96,75 @@ def terminatingC (k : SwKind) (cs : TClauses) : Bool :=
 end
 
 end ScriggoV.Terminating
+
+namespace ScriggoV.Terminating
+
+/-! ## Reference semantics of the skeleton: how a statement may complete -/
+
+/-- the ways a statement completes: normally (control falls to the next statement), by
+`return`, by a panic, by a `goto`, by a `break`/`continue` (unlabeled or labeled) that leaves
+it, or by `fallthrough` -/
+inductive Out
+  | normal | ret | panic | jump | brkU | brkL (l : Nat) | contU | contL (l : Nat) | fall
+  deriving DecidableEq, Repr
+
+/-- one pass through a loop body that completed with `o`: what the loop (with label `label`)
+completes with, if it completes at all (`none`: the next iteration starts) -/
+def loopOut (label : Option Nat) (o : Out) : Option Out :=
+  match o with
+  | .normal | .contU => none
+  | .contL l => if label = some l then none else some (.contL l)
+  | .brkU => some .normal
+  | .brkL l => if label = some l then some .normal else some (.brkL l)
+  | o => some o
+
+/-- a clause of a switch/select (with label `label`) completed with `o` -/
+def switchOut (label : Option Nat) (o : Out) : Out :=
+  match o with
+  | .brkU => .normal
+  | .brkL l => if label = some l then .normal else .brkL l
+  | o => o
+
+mutual
+/-- every way the statement may complete, each condition going either way; `label`: its label -/
+def outs (s : TStmt) (label : Option Nat) : List Out :=
+  match s with
+  | .simple => [.normal]
+  | .ret => [.ret]
+  | .panicCall => [.panic]
+  | .gotoS => [.jump]
+  | .brk none => [.brkU]
+  | .brk (some l) => [.brkL l]
+  | .cont none => [.contU]
+  | .cont (some l) => [.contL l]
+  | .fall => [.fall]
+  | .block ss => outsL ss
+  | .ifOnly t => .normal :: outsL t
+  | .ifElse t e => outsL t ++ outs e none
+  | .forS cond range body =>
+    (if cond || range then [.normal] else []) ++ (outsL body).filterMap (loopOut label)
+  | .sw k dflt cs =>
+    -- no default: no clause may be chosen (a select without default blocks instead)
+    (if k != .select && !dflt then [.normal] else []) ++ (outsC cs).map (switchOut label)
+  | .labeled l s => outs s (some l)
+/-- a statement list: the statements in sequence -/
+def outsL (ss : TList) : List Out :=
+  match ss with
+  | .nil => [.normal]
+  | .cons s rest =>
+    (outs s none).filter (· != .normal) ++ (if .normal ∈ outs s none then outsL rest else [])
+/-- execution starting at the first clause of `cs`: its statement list, continuing in the next
+clause after `fallthrough` (a `fallthrough` in the last clause is not Go) -/
+def outsFrom (cs : TClauses) : List Out :=
+  match cs with
+  | .nil => []
+  | .cons c rest => (outsL c).filter (· != .fall) ++ (if .fall ∈ outsL c then outsFrom rest else [])
+/-- execution starting at any clause -/
+def outsC (cs : TClauses) : List Out :=
+  match cs with
+  | .nil => []
+  | .cons c rest =>
+    ((outsL c).filter (· != .fall) ++ (if .fall ∈ outsL c then outsFrom rest else [])) ++ outsC rest
+end
+
+end ScriggoV.Terminating
